@@ -1,22 +1,29 @@
-// autoSql schema parser (bed::autosql::parse): the FUNCTIONAL result of the grammar-level functions on the language the
-// schema generator `bed_autosql` emits, at token level.
-// Property clause (C19): "... the schema it generates from the first BED line declares exactly three plus the number of
-// extra columns fields and the bigBed header's field count equals that; ... The schema parser ... parses every schema the
-// generator emits."  The header's field count is obtained by PARSING the generated text (unit write_pre takes it from the
-// last declaration `parse_autosql` returns), so the clause needs
-//      parse_autosql(text generated for n extra columns) == Ok([one declaration with exactly 3 + n fields]).
+// autoSql schema parser (bed::autosql::parse): the FUNCTIONAL result of the grammar-level functions, at token level.
+// Property clauses (C19): "... the schema it generates from the first BED line declares exactly three plus the number of
+// extra columns fields and the bigBed header's field count equals that; a schema supplied to the tool or the library is
+// stored ... with its declared field count (the library's default is the three-field BED schema). The schema parser ...
+// parses every schema the generator emits."  The header's field count is obtained by PARSING the text (unit write_pre takes
+// it from the last declaration `parse_autosql` returns), so the clauses need
+//      parse_autosql(text generated for n extra columns) == Ok([one declaration with exactly 3 + n fields])
+// and, for a supplied schema, "number of parsed fields == number of declared fields".
 // Unit asql_loops proves that parsing terminates, stays in bounds and never panics -- not what it returns.  This unit cuts
-// the same functions and proves, over a token model of the tokenizer (assumption A1', NOTES.md):
-//   (a) parse_field_list on `F_1 .. F_m )`, F_i = `TYPE NAME ; "comment"` or `TYPE [ SIZE ] NAME ; "comment"` (TYPE one of
-//       the 12 simple types), returns Ok(fields), fields.len() == m, field i = (TYPE_i, SIZE_i, NAME_i, comment_i), and
-//       stops in front of the `)`;
-//   (b) parse_declaration on `table|simple|object NAME "comment" ( F_1 .. F_m )` returns Ok(Some(that declaration)) and
-//       stops behind the `)`; at end of input it returns Ok(None);
-//   (c) parse_autosql on a text whose tokens are `gen_stream(n)` -- the tokens of what bed_autosql emits for n extra
-//       columns -- returns Ok(vec![d]) with d.fields.len() == 3 + n, field j having the generated type and name.
+// the same functions and proves, over a token model of the tokenizer (assumption A1', NOTES.md), for the autoSql grammar
+//      declaration := ("table"|"simple"|"object") name COMMENT "(" field+ ")"
+//      field       := type ["[" SIZE "]"] NAME tail ";" COMMENT
+//      type        := keyword type | ("enum"|"set") "(" VALUE {"," VALUE} ")" | ("simple"|"object") name
+//      name        := NAME tail          tail := ["primary" | "unique" | "index" ["[" SIZE "]"]] ["auto"]
+//   (a) parse_field_list on `field_1 .. field_m )` returns Ok(fields), fields.len() == m, field i having the type, size,
+//       name, index clause, auto flag and comment of field_i, and stops in front of the `)`;
+//   (b) parse_declaration on a declaration returns Ok(Some(that declaration)) and stops behind its `)`; at the end of the
+//       lexemes it returns Ok(None);
+//   (c) parse_autosql on a text that is ONE declaration returns Ok(vec![that declaration]); in particular on a text whose
+//       lexemes are `gen_stream(n)` -- what bed_autosql emits for n extra columns -- it returns Ok(vec![d]) with
+//       d.fields.len() == 3 + n, field j having the generated type, size, name and comment.
 // The totality contracts of asql_loops (termination with measure len - pos, cursor monotone, results bounded by the input)
-// are kept on every function: they carry the `decreases` clauses and the branches the generator never takes
-// (enum/set values, index/primary/unique/auto, nested simple/object/table field types).
+// are kept on every function: they carry the `decreases` clauses and hold for EVERY input.
+// NOT under the functional contract (totality only): the `"table"` arm of FieldType::try_parse, the `_ => Ok(None)` arm,
+// the leniencies of the code outside the grammar (missing comment, `enum()` / trailing comma, values separated by anything),
+// every error return, and parse_declaration_list beyond "one declaration, then the end".
 use vstd::prelude::*;
 verus! {
 
@@ -30,8 +37,7 @@ pub fn vpanic() -> !
 // ---------------------------------------------------------------------------------------------
 // Tok: stand-in for ONE `&'a str` slice handed out by the tokenizer -- an OCCURRENCE in the text (`id`), so two `uint`
 // at different places are different Toks.  String *content* is outside Verus; the facts kept are "is it empty",
-// "which literal of the grammar is it", "does it start with a double quote", its characters (for the name rule) and
-// whether the character that follows the occurrence is glued to it (neither white space nor a delimiter nor the end).
+// "which literal of the grammar is it", "does it start with a double quote" and its characters (for the name rule).
 // ---------------------------------------------------------------------------------------------
 #[allow(non_camel_case_types)]
 #[derive(Clone, Copy, PartialEq, Eq)]
@@ -55,8 +61,6 @@ impl Tok {
     pub uninterp spec fn lower(&self) -> Tok;
     /// the first character is a double quote
     pub uninterp spec fn quoted(&self) -> bool;
-    /// the character right after this occurrence is neither white space, nor one of `;()[],`, nor the end of the text
-    pub uninterp spec fn glued(&self) -> bool;
     /// one of the six delimiter characters
     pub open spec fn punct(&self) -> bool {
         self.lit() == Lit::LParen || self.lit() == Lit::RParen || self.lit() == Lit::LBracket
@@ -64,8 +68,6 @@ impl Tok {
     }
     /// a maximal run of characters that are neither white space nor delimiters, not starting with a quote
     pub open spec fn word(&self) -> bool { !self.empty() && !self.quoted() && !self.punct() }
-    /// a `;` followed by white space, a delimiter or the end
-    pub open spec fn semi(&self) -> bool { self.lit() == Lit::Semi && !self.glued() }
 
     /// `s.is_empty()`
     #[verifier::external_body]
@@ -81,6 +83,9 @@ impl Tok {
     /// introduces one is judged by the contracts instead of being rejected by the front end)
     #[verifier::external_body]
     fn eq_other(&self) -> (b: bool) { unimplemented!() }
+    /// `s != "<some other literal>"`: unknown result
+    #[verifier::external_body]
+    fn ne_other(&self) -> (b: bool) { unimplemented!() }
     /// `s != "<literal>"`
     #[verifier::external_body]
     fn ne_lit(&self, l: Lit) -> (b: bool)
@@ -236,14 +241,16 @@ pub open spec fn generator_style_name(s: Seq<char>) -> bool {
 //   peeked()  = start_cursor is at the first byte of lexeme number at() and end_cursor right behind its last byte
 //               (`take()` then hands out exactly that lexeme)
 // The contracts say WHICH lexeme a call returns/consumes only where the call kind fits the lexeme:
-//   peek_word/eat_word  at a word, or at a delimiter that is not glued to what follows      -> that lexeme
+//   peek_word/eat_word  at a word           -> that lexeme
+//   peek_word           at a delimiter      -> that lexeme, or (when the next character is glued to it: `[12`, `;"x"`) a
+//                                              longer text that starts with the delimiter and is no literal of the grammar
 //   peek_word           at a quoted string  -> some non-empty text that is no literal of the grammar (it starts with '"')
 //   peek_one/eat_one    at a delimiter      -> that lexeme;   at a word / quoted string -> its first character, which
 //                                              is no literal of the grammar (eat_one: the cursor is then unknown)
 //   peek/eat_quoted_string at a quoted string -> that lexeme;  elsewhere (also at the end) -> "" and nothing moves
 //   every call at the end of the lexemes    -> "" and nothing moves
-// Everything else (a word call at a glued delimiter, take() after a partial peek, any call while not aligned) is left
-// unspecified: an edit that gets there cannot establish the functional postconditions.
+// Everything else (eat_word at a delimiter or a quoted string, take() after a partial peek, any call while not
+// aligned) is left unspecified: an edit that gets there cannot establish the functional postconditions.
 // ---------------------------------------------------------------------------------------------
 pub uninterp spec fn str_len(s: &str) -> int;
 /// the lexemes of a text (see above)
@@ -278,8 +285,6 @@ impl VParser {
     pub open spec fn stepped(&self, o: &VParser) -> bool {
         self.toks() == o.toks() && self.at() == o.at() + 1 && self.aligned()
     }
-    /// a word call returns the lexeme ahead: a word, or a delimiter not glued to its successor
-    pub open spec fn wordlike(t: Tok) -> bool { t.word() || (t.punct() && !t.glued()) }
 
     #[verifier::external_body]
     fn of(data: &str) -> (p: VParser)
@@ -306,7 +311,8 @@ impl VParser {
             t.empty() == (final(self).end() == final(self).pos()),
             t.empty() ==> final(self).pos() == final(self).len(),
             final(self).toks() == old(self).toks(), old(self).ready() ==> final(self).stays(old(self)),
-            old(self).more() && Self::wordlike(old(self).head()) ==> t == old(self).head() && !t.empty() && final(self).peeked(),
+            old(self).more() && old(self).head().word() ==> t == old(self).head() && !t.empty() && final(self).peeked(),
+            old(self).more() && old(self).head().punct() ==> !t.empty() && (t == old(self).head() || t.lit() == Lit::Other),
             old(self).more() && old(self).head().quoted() ==> t.lit() == Lit::Other && !t.empty(),
             old(self).done() ==> t.empty(),
     { unimplemented!() }
@@ -319,7 +325,7 @@ impl VParser {
             !t.empty() ==> final(self).pos() > old(self).pos(),
             t.empty() ==> final(self).pos() == final(self).len(),
             final(self).toks() == old(self).toks(), !final(self).peeked(),
-            old(self).more() && Self::wordlike(old(self).head()) ==> t == old(self).head() && !t.empty() && final(self).stepped(old(self)),
+            old(self).more() && old(self).head().word() ==> t == old(self).head() && !t.empty() && final(self).stepped(old(self)),
             old(self).done() ==> t.empty() && final(self).stays(old(self)),
     { unimplemented!() }
 
@@ -454,16 +460,26 @@ pub open spec fn n_values(ft: FieldType) -> int {
 fn u8_class(b: u8) -> (r: bool) { unimplemented!() }
 
 // ---------------------------------------------------------------------------------------------
-// GRAMMAR VOCABULARY over a lexeme sequence ts (written from the autoSql grammar, kent autoSql.doc:
-//   declaration := ("table"|"simple"|"object") NAME COMMENT "(" field+ ")"
-//   field       := TYPE ["[" SIZE "]"] NAME ";" COMMENT          -- the part of the field grammar the generator uses)
+// GRAMMAR VOCABULARY over a lexeme sequence ts (written from the autoSql grammar, kent autoSql.doc):
+//   declaration := ("table"|"simple"|"object") name COMMENT "(" field+ ")"
+//   field       := type ["[" SIZE "]"] NAME tail ";" COMMENT
+//   type        := one of the twelve keyword types | ("enum"|"set") "(" VALUE {"," VALUE} ")" | ("simple"|"object") name
+//   name        := NAME tail            tail := ["primary" | "unique" | "index" ["[" SIZE "]"]] ["auto"]
+// NAME, SIZE, VALUE are words; a declaration's NAME (and the NAME of a nested `simple`/`object` type) has to pass the
+// parser's identifier rule and is taken in the generator's style (a letter, then letters and digits).
+// Every function below is a function of the lexemes alone: WHERE the parts of a field stand is computed from ts.
 // ---------------------------------------------------------------------------------------------
+pub open spec fn b2i(b: bool) -> int { if b { 1 } else { 0 } }
 /// the twelve keyword types without arguments
 pub open spec fn is_simple_type(l: Lit) -> bool {
     l == Lit::W_int || l == Lit::W_uint || l == Lit::W_short || l == Lit::W_ushort || l == Lit::W_byte || l == Lit::W_ubyte
         || l == Lit::W_float || l == Lit::W_double || l == Lit::W_char || l == Lit::W_string || l == Lit::W_lstring
         || l == Lit::W_bigint
 }
+pub open spec fn is_list_type(l: Lit) -> bool { l == Lit::W_enum || l == Lit::W_set }
+/// `simple NAME` / `object NAME` as the type of a field (`table NAME` in that place is left out of the contract: the
+/// code reads it as an `object`, the grammar document does not have it)
+pub open spec fn is_nested_type(l: Lit) -> bool { l == Lit::W_simple || l == Lit::W_object }
 /// the keyword a parsed field type stands for
 pub open spec fn ft_lit(ft: FieldType) -> Lit {
     match ft {
@@ -479,30 +495,113 @@ pub open spec fn is_decl_type(l: Lit) -> bool { l == Lit::W_simple || l == Lit::
 pub open spec fn dt_lit(dt: DeclarationType) -> Lit {
     match dt { DeclarationType::Simple => Lit::W_simple, DeclarationType::Object => Lit::W_object, DeclarationType::Table => Lit::W_table }
 }
-/// the words that continue a name (`NAME primary`, `NAME index[..]`, `NAME unique`, `NAME auto`)
-pub open spec fn index_word(l: Lit) -> bool { l == Lit::W_primary || l == Lit::W_index || l == Lit::W_unique || l == Lit::W_auto }
-/// what stands at q does not continue a name: the end, a quoted string, a free-standing delimiter, or another word
-pub open spec fn plain_follow(ts: Seq<Tok>, q: int) -> bool {
-    q == ts.len() || (0 <= q < ts.len() && (ts[q].quoted() || (ts[q].punct() && !ts[q].glued()) || (ts[q].word() && !index_word(ts[q].lit()))))
+/// at q stands a lexeme of one of the three kinds, or the text ends there
+pub open spec fn known(ts: Seq<Tok>, q: int) -> bool {
+    q == ts.len() || (0 <= q < ts.len() && (ts[q].word() || ts[q].punct() || ts[q].quoted()))
 }
-/// a declaration name of the generator's style at p, nothing continuing it
+
+// ---- tail := ["primary" | "unique" | "index" ["[" SIZE "]"]] ["auto"] -------------------------------------------
+pub open spec fn is_idx_word(ts: Seq<Tok>, q: int) -> bool {
+    0 <= q < ts.len() && ts[q].word() && (ts[q].lit() == Lit::W_primary || ts[q].lit() == Lit::W_unique || ts[q].lit() == Lit::W_index)
+}
+/// `index [`
+pub open spec fn idx_bracket(ts: Seq<Tok>, q: int) -> bool {
+    is_idx_word(ts, q) && ts[q].lit() == Lit::W_index && q + 1 < ts.len() && ts[q + 1].lit() == Lit::LBracket
+}
+/// (opaque: revealed where the index clause itself is parsed; everywhere else it is just a number of lexemes)
+#[verifier::opaque]
+pub open spec fn idx_w(ts: Seq<Tok>, q: int) -> int { if idx_bracket(ts, q) { 4 } else if is_idx_word(ts, q) { 1 } else { 0 } }
+/// an opened `index [` is `index [ SIZE ]`
+pub open spec fn idx_ok(ts: Seq<Tok>, q: int) -> bool {
+    idx_bracket(ts, q) ==> q + 3 < ts.len() && ts[q + 2].word() && ts[q + 3].lit() == Lit::RBracket
+}
+pub open spec fn idx_is(it: Option<IndexType>, ts: Seq<Tok>, q: int) -> bool {
+    if !is_idx_word(ts, q) { it is None }
+    else if ts[q].lit() == Lit::W_primary { it == Some(IndexType::Primary) }
+    else if ts[q].lit() == Lit::W_unique { it == Some(IndexType::Unique) }
+    else if idx_bracket(ts, q) { it == Some(IndexType::Index(Some(ts[q + 2]))) }
+    else { it == Some(IndexType::Index(None)) }
+}
+pub open spec fn auto_at(ts: Seq<Tok>, q: int) -> bool { 0 <= q < ts.len() && ts[q].word() && ts[q].lit() == Lit::W_auto }
+/// where `auto` may stand when the tail starts at q
+pub open spec fn tail_auto(ts: Seq<Tok>, q: int) -> int { q + idx_w(ts, q) }
+pub open spec fn tail_w(ts: Seq<Tok>, q: int) -> int { idx_w(ts, q) + b2i(auto_at(ts, tail_auto(ts, q))) }
+/// a tail stands at q (possibly the empty one), and what it is made of is of known kind
+pub open spec fn tail_ok(ts: Seq<Tok>, q: int) -> bool {
+    0 <= q <= ts.len() && idx_ok(ts, q) && known(ts, q) && known(ts, tail_auto(ts, q))
+}
+
+// ---- name := NAME tail (declaration names: identifier rule) --------------------------------------------------------
 pub open spec fn name_ok(ts: Seq<Tok>, p: int) -> bool {
-    0 <= p < ts.len() && ts[p].word() && generator_style_name(ts[p].text()) && plain_follow(ts, p + 1)
+    0 <= p < ts.len() && ts[p].word() && generator_style_name(ts[p].text()) && tail_ok(ts, p + 1)
 }
-/// the field group at p carries a size: `TYPE [ SIZE ] NAME ; "comment"` (7 lexemes) instead of `TYPE NAME ; "comment"` (4)
-pub open spec fn sized_at(ts: Seq<Tok>, p: int) -> bool { 0 <= p + 1 < ts.len() && ts[p + 1].lit() == Lit::LBracket }
-pub open spec fn grp_width(ts: Seq<Tok>, p: int) -> int { if sized_at(ts, p) { 7 } else { 4 } }
-/// a field group stands at p and at least one more lexeme follows it
+pub open spec fn name_w(ts: Seq<Tok>, p: int) -> int { 1 + tail_w(ts, p + 1) }
+pub open spec fn name_is(d: DeclareName, ts: Seq<Tok>, p: int) -> bool {
+    d.name == ts[p] && idx_is(d.index_type, ts, p + 1) && d.auto == auto_at(ts, tail_auto(ts, p + 1))
+}
+
+// ---- type -----------------------------------------------------------------------------------------------------------
+/// VALUE {"," VALUE} ")" stands at q
+pub open spec fn vals_ok(ts: Seq<Tok>, q: int) -> bool
+    decreases ts.len() - q,
+{
+    0 <= q && q + 1 < ts.len() && ts[q].word()
+        && (ts[q + 1].lit() == Lit::RParen || (ts[q + 1].lit() == Lit::Comma && vals_ok(ts, q + 2)))
+}
+/// how many values
+pub open spec fn vals_n(ts: Seq<Tok>, q: int) -> int
+    decreases ts.len() - q,
+{
+    if !(0 <= q && q + 1 < ts.len() && ts[q].word()) { 0 }
+    else if ts[q + 1].lit() == Lit::RParen { 1 }
+    else if ts[q + 1].lit() == Lit::Comma { 1 + vals_n(ts, q + 2) }
+    else { 0 }
+}
+/// v holds the values of the list at q, in order
+pub open spec fn vals_are(v: Seq<Tok>, ts: Seq<Tok>, q: int) -> bool {
+    v.len() == vals_n(ts, q) && forall|i: int| 0 <= i < v.len() ==> (#[trigger] v[i]) == ts[q + 2 * i]
+}
+/// (opaque: revealed where the type itself is parsed)
+#[verifier::opaque]
+pub open spec fn type_w(ts: Seq<Tok>, p: int) -> int {
+    if 0 <= p < ts.len() && is_list_type(ts[p].lit()) { 2 + 2 * vals_n(ts, p + 2) }
+    else if 0 <= p < ts.len() && is_nested_type(ts[p].lit()) { 1 + name_w(ts, p + 1) }
+    else { 1 }
+}
+pub open spec fn type_ok(ts: Seq<Tok>, p: int) -> bool {
+    &&& 0 <= p < ts.len() && ts[p].word()
+    &&& is_simple_type(ts[p].lit())
+        || (is_list_type(ts[p].lit()) && p + 1 < ts.len() && ts[p + 1].lit() == Lit::LParen && vals_ok(ts, p + 2))
+        || (is_nested_type(ts[p].lit()) && name_ok(ts, p + 1))
+}
+pub open spec fn type_is(ft: FieldType, ts: Seq<Tok>, p: int) -> bool {
+    match ft {
+        FieldType::Enum(v) => ts[p].lit() == Lit::W_enum && vals_are(v@, ts, p + 2),
+        FieldType::Set(v) => ts[p].lit() == Lit::W_set && vals_are(v@, ts, p + 2),
+        FieldType::Declaration(dt, dn) => is_nested_type(ts[p].lit()) && dt_lit(dt) == ts[p].lit() && name_is(dn, ts, p + 1),
+        _ => is_simple_type(ts[p].lit()) && ft_lit(ft) == ts[p].lit(),
+    }
+}
+
+// ---- field := type ["[" SIZE "]"] NAME tail ";" COMMENT ----------------------------------------------------------
+/// where the `[` of a size stands if there is one
+pub open spec fn g_size(ts: Seq<Tok>, p: int) -> int { p + type_w(ts, p) }
+pub open spec fn sized_at(ts: Seq<Tok>, p: int) -> bool { 0 <= g_size(ts, p) < ts.len() && ts[g_size(ts, p)].lit() == Lit::LBracket }
+pub open spec fn g_name(ts: Seq<Tok>, p: int) -> int { g_size(ts, p) + (if sized_at(ts, p) { 3int } else { 0int }) }
+pub open spec fn g_tail(ts: Seq<Tok>, p: int) -> int { g_name(ts, p) + 1 }
+pub open spec fn g_semi(ts: Seq<Tok>, p: int) -> int { g_tail(ts, p) + tail_w(ts, g_tail(ts, p)) }
+pub open spec fn grp_width(ts: Seq<Tok>, p: int) -> int { g_semi(ts, p) + 2 - p }
+/// a field stands at p and at least one more lexeme follows it
 pub open spec fn grp_ok(ts: Seq<Tok>, p: int) -> bool {
-    &&& 0 <= p && p + grp_width(ts, p) < ts.len()
-    &&& ts[p].word() && is_simple_type(ts[p].lit())
-    &&& if sized_at(ts, p) {
-            ts[p + 2].word() && ts[p + 3].lit() == Lit::RBracket && ts[p + 4].word() && ts[p + 5].semi() && ts[p + 6].quoted()
-        } else {
-            ts[p + 1].word() && ts[p + 2].semi() && ts[p + 3].quoted()
-        }
+    &&& type_ok(ts, p) && type_w(ts, p) >= 1 && idx_w(ts, g_tail(ts, p)) >= 0
+    &&& g_semi(ts, p) + 2 < ts.len()
+    &&& sized_at(ts, p) ==> ts[g_size(ts, p) + 1].word() && ts[g_size(ts, p) + 2].lit() == Lit::RBracket
+    &&& ts[g_name(ts, p)].word()
+    &&& tail_ok(ts, g_tail(ts, p))
+    &&& ts[g_semi(ts, p)].lit() == Lit::Semi
+    &&& ts[g_semi(ts, p) + 1].quoted()
 }
-/// field groups stand at p, one after the other, up to a `)`
+/// fields stand at p, one after the other, up to a `)`
 pub open spec fn list_ok(ts: Seq<Tok>, p: int) -> bool
     decreases ts.len() - p,
 {
@@ -514,44 +613,68 @@ pub open spec fn count(ts: Seq<Tok>, p: int) -> int
 {
     if !grp_ok(ts, p) { 0 } else if ts[p + grp_width(ts, p)].lit() == Lit::RParen { 1 } else { 1 + count(ts, p + grp_width(ts, p)) }
 }
-/// where group number k (0-based) of the list at p0 starts; k == count: where the `)` stands
+/// where field number k (0-based) of the list at p0 starts; k == count: where the `)` stands
 pub open spec fn nth_start(ts: Seq<Tok>, p0: int, k: int) -> int
     decreases k,
 {
     if k <= 0 { p0 } else { nth_start(ts, p0, k - 1) + grp_width(ts, nth_start(ts, p0, k - 1)) }
 }
-/// the parsed field f is the group at p: its type, size, name and comment, no index, not auto
+/// the parsed field f is the one at p: its type, size, name, index, auto flag and comment
 pub open spec fn field_is(f: Field, ts: Seq<Tok>, p: int) -> bool {
-    &&& ft_lit(f.field_type) == ts[p].lit()
-    &&& f.index_type is None && !f.auto
-    &&& if sized_at(ts, p) {
-            f.field_size == Some(ts[p + 2]) && f.name == ts[p + 4] && f.comment == ts[p + 6]
-        } else {
-            f.field_size is None && f.name == ts[p + 1] && f.comment == ts[p + 3]
-        }
+    &&& type_is(f.field_type, ts, p)
+    &&& if sized_at(ts, p) { f.field_size == Some(ts[g_size(ts, p) + 1]) } else { f.field_size is None }
+    &&& f.name == ts[g_name(ts, p)]
+    &&& idx_is(f.index_type, ts, g_tail(ts, p))
+    &&& f.auto == auto_at(ts, tail_auto(ts, g_tail(ts, p)))
+    &&& f.comment == ts[g_semi(ts, p) + 1]
 }
-/// the parsed fields fs are the first fs.len() groups of the list at p0, in order
+/// the parsed fields fs are the first fs.len() fields of the list at p0, in order
 pub open spec fn fields_are(fs: Seq<Field>, ts: Seq<Tok>, p0: int) -> bool {
     forall|j: int| 0 <= j < fs.len() ==> field_is(#[trigger] fs[j], ts, nth_start(ts, p0, j))
 }
-/// a declaration stands at p: `table|simple|object NAME "comment" ( field+` and then, by list_ok, `)`
+
+/// one round of the field loop: k fields parsed, the cursor at field k (= p) of a well-formed rest; f is field k.
+/// Then k + 1 fields are parsed, field k + 1 starts behind field k, and either the `)` stands there and all fields are
+/// parsed, or a well-formed rest with one field less stands there.
+proof fn lemma_list_step(ts: Seq<Tok>, p0: int, fs: Seq<Field>, f: Field, p: int)
+    requires
+        p == nth_start(ts, p0, fs.len() as int), list_ok(ts, p), fs.len() + count(ts, p) == count(ts, p0),
+        fields_are(fs, ts, p0), field_is(f, ts, p),
+    ensures
+        
+        fields_are(fs.push(f), ts, p0),
+        nth_start(ts, p0, fs.len() as int + 1) == p + grp_width(ts, p),
+        ts[p + grp_width(ts, p)].lit() == Lit::RParen ==> fs.len() + 1 == count(ts, p0),
+        ts[p + grp_width(ts, p)].lit() != Lit::RParen ==> list_ok(ts, p + grp_width(ts, p))
+            && fs.len() + 1 + count(ts, p + grp_width(ts, p)) == count(ts, p0),
+{
+    let fs2 = fs.push(f);
+    assert forall|j: int| 0 <= j < fs2.len() implies field_is(#[trigger] fs2[j], ts, nth_start(ts, p0, j)) by {
+        if j < fs.len() { assert(fs2[j] == fs[j]); } else { assert(fs2[j] == f); }
+    }
+}
+
+// ---- declaration := ("table"|"simple"|"object") name COMMENT "(" field+ ")" ----------------------------------------
+/// where the comment of the declaration at p stands; `(` is next, the fields start behind it
+pub open spec fn d_comment(ts: Seq<Tok>, p: int) -> int { p + 1 + name_w(ts, p + 1) }
+pub open spec fn d_fields(ts: Seq<Tok>, p: int) -> int { d_comment(ts, p) + 2 }
 pub open spec fn decl_ok(ts: Seq<Tok>, p: int) -> bool {
-    &&& 0 <= p && p + 4 < ts.len()
-    &&& ts[p].word() && is_decl_type(ts[p].lit())
-    &&& ts[p + 1].word() && generator_style_name(ts[p + 1].text())
-    &&& ts[p + 2].quoted()
-    &&& ts[p + 3].lit() == Lit::LParen
-    &&& list_ok(ts, p + 4)
+    &&& 0 <= p < ts.len() && ts[p].word() && is_decl_type(ts[p].lit())
+    &&& name_ok(ts, p + 1)
+    &&& d_comment(ts, p) + 1 < ts.len()
+    &&& ts[d_comment(ts, p)].quoted()
+    &&& ts[d_comment(ts, p) + 1].lit() == Lit::LParen
+    &&& list_ok(ts, d_fields(ts, p))
 }
 /// the lexeme behind its closing `)`
-pub open spec fn decl_end(ts: Seq<Tok>, p: int) -> int { nth_start(ts, p + 4, count(ts, p + 4)) + 1 }
+pub open spec fn decl_end(ts: Seq<Tok>, p: int) -> int { nth_start(ts, d_fields(ts, p), count(ts, d_fields(ts, p))) + 1 }
 /// the parsed declaration d is the one at p
 pub open spec fn decl_is(d: Declaration, ts: Seq<Tok>, p: int) -> bool {
     &&& dt_lit(d.declaration_type) == ts[p].lit()
-    &&& d.name.name == ts[p + 1] && d.name.index_type is None && !d.name.auto
-    &&& d.comment == ts[p + 2]
-    &&& d.fields@.len() == count(ts, p + 4)
-    &&& fields_are(d.fields@, ts, p + 4)
+    &&& name_is(d.name, ts, p + 1)
+    &&& d.comment == ts[d_comment(ts, p)]
+    &&& d.fields@.len() == count(ts, d_fields(ts, p))
+    &&& fields_are(d.fields@, ts, d_fields(ts, p))
 }
 /// the whole text is one declaration
 pub open spec fn one_decl(ts: Seq<Tok>) -> bool { decl_ok(ts, 0) && decl_end(ts, 0) == ts.len() }
@@ -572,7 +695,6 @@ pub open spec fn one_decl(ts: Seq<Tok>) -> bool { decl_ok(ts, 0) && decl_end(ts,
 // Field j (0-based) is declared iff j < 3 + n.
 // ---------------------------------------------------------------------------------------------
 pub open spec fn gen_sized(j: int) -> bool { j == 5 || j == 10 || j == 11 || j == 13 || j == 14 }
-pub open spec fn b2i(b: bool) -> int { if b { 1 } else { 0 } }
 /// where field j starts: 4 lexemes of preamble, 4 per field, 3 more for every sized field before it
 pub open spec fn gen_start(j: int) -> int {
     4 + 4 * j + 3 * (b2i(j > 5) + b2i(j > 10) + b2i(j > 11) + b2i(j > 13) + b2i(j > 14))
@@ -590,9 +712,9 @@ pub open spec fn gen_group(ts: Seq<Tok>, j: int) -> bool {
     &&& ts[p].word() && ts[p].lit() == gen_type(j)
     &&& if gen_sized(j) {
             &&& ts[p + 1].lit() == Lit::LBracket && ts[p + 2].word() && ts[p + 3].lit() == Lit::RBracket
-            &&& ts[p + 4].word() && generator_style_name(ts[p + 4].text()) && ts[p + 5].semi() && ts[p + 6].quoted()
+            &&& ts[p + 4].word() && generator_style_name(ts[p + 4].text()) && ts[p + 5].lit() == Lit::Semi && ts[p + 6].quoted()
         } else {
-            ts[p + 1].word() && generator_style_name(ts[p + 1].text()) && ts[p + 2].semi() && ts[p + 3].quoted()
+            ts[p + 1].word() && generator_style_name(ts[p + 1].text()) && ts[p + 2].lit() == Lit::Semi && ts[p + 3].quoted()
         }
 }
 pub open spec fn gen_stream(ts: Seq<Tok>, n: int) -> bool {
@@ -604,9 +726,18 @@ pub open spec fn gen_stream(ts: Seq<Tok>, n: int) -> bool {
     &&& forall|j: int| 0 <= j < 3 + n ==> #[trigger] gen_group(ts, j)
     &&& ts[gen_start(3 + n)].lit() == Lit::RParen
 }
-/// the parsed field list of a generated schema: field j is the generated group j
+/// the parsed field f is the generated field j: its keyword type, its size (sized fields), its name, no index, not auto,
+/// its comment
+pub open spec fn gen_field_is(f: Field, ts: Seq<Tok>, j: int) -> bool {
+    let p = gen_start(j);
+    &&& ft_lit(f.field_type) == gen_type(j)
+    &&& f.index_type is None && !f.auto
+    &&& if gen_sized(j) { f.field_size == Some(ts[p + 2]) && f.name == ts[p + 4] && f.comment == ts[p + 6] }
+        else { f.field_size is None && f.name == ts[p + 1] && f.comment == ts[p + 3] }
+}
+/// the parsed field list of a generated schema: field j is the generated field j
 pub open spec fn gen_fields_are(fs: Seq<Field>, ts: Seq<Tok>) -> bool {
-    forall|j: int| 0 <= j < fs.len() ==> field_is(#[trigger] fs[j], ts, gen_start(j))
+    forall|j: int| 0 <= j < fs.len() ==> gen_field_is(#[trigger] fs[j], ts, j)
 }
 
 /// group j of a generated stream has the width the generator gives it
@@ -618,8 +749,33 @@ proof fn lemma_gen_width(ts: Seq<Tok>, n: int, j: int)
         gen_start(j) + grp_width(ts, gen_start(j)) == gen_start(j + 1),
         gen_start(j + 1) <= gen_start(3 + n),
         sized_at(ts, gen_start(j)) == gen_sized(j),
+        g_size(ts, gen_start(j)) == gen_start(j) + 1,
+        g_name(ts, gen_start(j)) == gen_start(j) + (if gen_sized(j) { 4int } else { 1int }),
+        g_semi(ts, gen_start(j)) == g_name(ts, gen_start(j)) + 1,
 {
+    reveal(type_w); reveal(idx_w);
     assert(gen_group(ts, j));
+    let p = gen_start(j);
+    assert(type_w(ts, p) == 1);
+    assert(g_size(ts, p) == p + 1);
+    assert(sized_at(ts, p) == gen_sized(j));
+    let q = g_tail(ts, p);
+    assert(ts[q].lit() == Lit::Semi);
+    assert(tail_w(ts, q) == 0);
+}
+/// a parsed field that is the field at gen_start(j) of a generated stream is the generated field j
+proof fn lemma_gen_field(ts: Seq<Tok>, n: int, j: int, f: Field)
+    requires gen_stream(ts, n), 0 <= j < 3 + n, field_is(f, ts, gen_start(j)),
+    ensures
+        
+        gen_field_is(f, ts, j),
+{
+    reveal(idx_w);
+    lemma_gen_width(ts, n, j);
+    assert(gen_group(ts, j));
+    let p = gen_start(j);
+    assert(!is_idx_word(ts, g_tail(ts, p)));
+    assert(!auto_at(ts, tail_auto(ts, g_tail(ts, p))));
 }
 /// the k-th group of the list behind the `(` of a generated stream starts where the generator puts field k
 proof fn lemma_gen_starts(ts: Seq<Tok>, n: int, k: int)
@@ -663,11 +819,21 @@ proof fn lemma_gen(ts: Seq<Tok>, n: int)
         count(ts, 4) == 3 + n,
         
         forall|k: int| 0 <= k <= 3 + n ==> #[trigger] nth_start(ts, 4, k) == gen_start(k),
+        
+        d_fields(ts, 0) == 4 && d_comment(ts, 0) == 2 && !is_idx_word(ts, 2) && !auto_at(ts, tail_auto(ts, 2)),
+        
+        forall|f: Field, j: int| 0 <= j < 3 + n && #[trigger] field_is(f, ts, gen_start(j)) ==> gen_field_is(f, ts, j),
 {
+    reveal(idx_w);
+    assert(tail_w(ts, 2) == 0);
+    assert(d_fields(ts, 0) == 4);
     lemma_gen_list(ts, n, 0);
     lemma_gen_starts(ts, n, 3 + n);
     assert forall|k: int| 0 <= k <= 3 + n implies #[trigger] nth_start(ts, 4, k) == gen_start(k) by {
         lemma_gen_starts(ts, n, k);
+    }
+    assert forall|f: Field, j: int| 0 <= j < 3 + n && #[trigger] field_is(f, ts, gen_start(j)) implies gen_field_is(f, ts, j) by {
+        lemma_gen_field(ts, n, j, f);
     }
 }
 
@@ -689,11 +855,12 @@ fn parse(parser: &mut VParser) -> (r: Result<Self, ParseError>)
             old(parser).ready() && name_ok(old(parser).toks(), old(parser).at()) ==> r is Ok,
             
             old(parser).ready() && name_ok(old(parser).toks(), old(parser).at()) ==> (r matches Ok(d) ==>
-                d.name == old(parser).head() && d.index_type is None && !d.auto),
+                name_is(d, old(parser).toks(), old(parser).at())),
             
-            old(parser).ready() && name_ok(old(parser).toks(), old(parser).at()) ==> final(parser).stepped(old(parser)),
+            old(parser).ready() && name_ok(old(parser).toks(), old(parser).at()) ==>
+                final(parser).ready() && final(parser).at() == old(parser).at() + name_w(old(parser).toks(), old(parser).at()),
 {
-            proof { char_class_facts(); }
+            proof { char_class_facts(); reveal(idx_w); }
 
             let declare_name = parser.eat_word();
             if !chars_first(&declare_name).unwrap_or(' ').is_alphabetic()
@@ -750,6 +917,14 @@ fn parse(parser: &mut VParser) -> (r: Result<Self, ParseError>)
 }
 
 impl FieldType {
+    /// `FieldType::to_string` of the repository (same impl block, not under contract here), REAL contract at this level of
+    /// abstraction: the keyword for the twelve keyword types, otherwise a non-empty text that is no literal of the grammar
+    /// (`enum(..)`, `set(..)`, `simple ...`).  Present so that an edit that uses the printed type (e.g. as a field's
+    /// name) is judged instead of being refused by the front end.
+    #[verifier::external_body]
+    pub fn to_string(&self) -> (r: Tok)
+        ensures !r.empty(), r.lit() == (if is_simple_type(ft_lit(*self)) { ft_lit(*self) } else { Lit::Other }),
+    { unimplemented!() }
 fn try_parse(parser: &mut VParser) -> (r: Result<Option<Self>, ParseError>)
         requires
             
@@ -766,12 +941,16 @@ fn try_parse(parser: &mut VParser) -> (r: Result<Option<Self>, ParseError>)
             
             r matches Err(ParseError::InvalidDeclareName(t)) ==> !generator_style_name(t.text()),
             
-            old(parser).more() && old(parser).head().word() && is_simple_type(old(parser).head().lit())
-                ==> r is Ok && r->Ok_0 is Some && ft_lit(r->Ok_0->Some_0) == old(parser).head().lit(),
+            old(parser).ready() && type_ok(old(parser).toks(), old(parser).at()) ==> r is Ok && r->Ok_0 is Some,
             
-            old(parser).more() && old(parser).head().word() && is_simple_type(old(parser).head().lit())
-                ==> final(parser).stepped(old(parser)),
+            old(parser).ready() && type_ok(old(parser).toks(), old(parser).at()) ==> (r matches Ok(Some(ft)) ==>
+                type_is(ft, old(parser).toks(), old(parser).at())),
+            
+            old(parser).ready() && type_ok(old(parser).toks(), old(parser).at()) ==>
+                final(parser).ready() && final(parser).at() == old(parser).at() + type_w(old(parser).toks(), old(parser).at()),
 {
+            proof { reveal(type_w); }
+
             let field_type= parser.peek_word().to_lowercase();
             let field_type = match field_type.kind() {
                 Lit::W_int => FieldType::Int,
@@ -798,14 +977,27 @@ fn try_parse(parser: &mut VParser) -> (r: Result<Option<Self>, ParseError>)
 
                     let ghost p0 = parser.pos();
                     loop 
+                        invariant_except_break
+                            
+                            old(parser).ready() && type_ok(old(parser).toks(), old(parser).at()) && old(parser).head().lit() == Lit::W_enum ==> (
+                                parser.ready() && parser.at() == old(parser).at() + 2 + 2 * values@.len()
+                                && vals_ok(parser.toks(), parser.at())
+                                && values@.len() + vals_n(parser.toks(), parser.at()) == vals_n(old(parser).toks(), old(parser).at() + 2)
+                                && (forall|j: int| 0 <= j < values@.len() ==> (#[trigger] values@[j]) == old(parser).toks()[old(parser).at() + 2 + 2 * j])),
                         invariant
                             
                             parser.wf(), parser.len() == old(parser).len(),
                             old(parser).pos() < p0 <= parser.pos(),
                             parser.toks() == old(parser).toks(),
-                            !(old(parser).more() && old(parser).head().word() && is_simple_type(old(parser).head().lit())),
+                            
+                            old(parser).ready() && type_ok(old(parser).toks(), old(parser).at()) ==> old(parser).head().lit() == Lit::W_enum,
                             
                             values@.len() <= parser.pos() - p0,
+                        ensures
+                            
+                            old(parser).ready() && type_ok(old(parser).toks(), old(parser).at()) && old(parser).head().lit() == Lit::W_enum ==> (
+                                parser.ready() && parser.at() == old(parser).at() + 2 + 2 * values@.len()
+                                && vals_are(values@, old(parser).toks(), old(parser).at() + 2)),
                         decreases
                             
                             parser.len() - parser.pos(),
@@ -837,14 +1029,27 @@ fn try_parse(parser: &mut VParser) -> (r: Result<Option<Self>, ParseError>)
 
                     let ghost p0 = parser.pos();
                     loop 
+                        invariant_except_break
+                            
+                            old(parser).ready() && type_ok(old(parser).toks(), old(parser).at()) && old(parser).head().lit() == Lit::W_set ==> (
+                                parser.ready() && parser.at() == old(parser).at() + 2 + 2 * values@.len()
+                                && vals_ok(parser.toks(), parser.at())
+                                && values@.len() + vals_n(parser.toks(), parser.at()) == vals_n(old(parser).toks(), old(parser).at() + 2)
+                                && (forall|j: int| 0 <= j < values@.len() ==> (#[trigger] values@[j]) == old(parser).toks()[old(parser).at() + 2 + 2 * j])),
                         invariant
                             
                             parser.wf(), parser.len() == old(parser).len(),
                             old(parser).pos() < p0 <= parser.pos(),
                             parser.toks() == old(parser).toks(),
-                            !(old(parser).more() && old(parser).head().word() && is_simple_type(old(parser).head().lit())),
+                            
+                            old(parser).ready() && type_ok(old(parser).toks(), old(parser).at()) ==> old(parser).head().lit() == Lit::W_set,
                             
                             values@.len() <= parser.pos() - p0,
+                        ensures
+                            
+                            old(parser).ready() && type_ok(old(parser).toks(), old(parser).at()) && old(parser).head().lit() == Lit::W_set ==> (
+                                parser.ready() && parser.at() == old(parser).at() + 2 + 2 * values@.len()
+                                && vals_are(values@, old(parser).toks(), old(parser).at() + 2)),
                         decreases
                             
                             parser.len() - parser.pos(),
@@ -953,11 +1158,18 @@ fn parse_field_list(parser: &mut VParser) -> (r: Result<Vec<Field>, ParseError>)
                 
                 parser.len() - parser.pos(),
 {
+
+            let ghost gp = parser.at();
+            let ghost gts = parser.toks();
+            let ghost gh = old(parser).ready() && list_ok(old(parser).toks(), old(parser).at());
             let field_type = match FieldType::try_parse(parser)? {
                 Some(field_type) => field_type,
                 None => break,
             };
 
+
+            
+            assert(gh ==> parser.ready() && parser.at() == g_size(gts, gp) && type_is(field_type, gts, gp));
             let next_word = parser.peek_one();
 
             let (field_size, field_name) = if next_word.eq_lit(Lit::LBracket) {
@@ -972,6 +1184,10 @@ fn parse_field_list(parser: &mut VParser) -> (r: Result<Vec<Field>, ParseError>)
                 let next_word = parser.eat_word();
                 (None, next_word)
             };
+
+            
+            assert(gh ==> parser.ready() && parser.at() == g_tail(gts, gp) && field_name == gts[g_name(gts, gp)]
+                && (if sized_at(gts, gp) { field_size == Some(gts[g_size(gts, gp) + 1]) } else { field_size is None }));
             let field_name = field_name.to_string();
 
             let next_word = parser.peek_word();
@@ -1006,6 +1222,11 @@ fn parse_field_list(parser: &mut VParser) -> (r: Result<Vec<Field>, ParseError>)
             };
 
             let next_word = parser.peek_word();
+
+            
+            assert(gh ==> parser.ready() && parser.at() == tail_auto(gts, g_tail(gts, gp)) && idx_is(index_type, gts, g_tail(gts, gp))) by {
+                reveal(idx_w);
+            }
             let auto = if next_word.eq_lit(Lit::W_auto) {
                 parser.eat_word();
                 true
@@ -1014,6 +1235,8 @@ fn parse_field_list(parser: &mut VParser) -> (r: Result<Vec<Field>, ParseError>)
             };
 
 
+            
+            assert(gh ==> parser.ready() && parser.at() == g_semi(gts, gp) && auto == auto_at(gts, tail_auto(gts, g_tail(gts, gp))));
             let ghost p_sep = parser.pos();
             let semicolon = parser.eat_one();
             if semicolon.ne_lit(Lit::Semi) {
@@ -1025,6 +1248,15 @@ fn parse_field_list(parser: &mut VParser) -> (r: Result<Vec<Field>, ParseError>)
 
             assert(parser.pos() > p_sep); 
             let comment = parser.eat_quoted_string().to_string();
+
+            
+            assert(gh ==> parser.ready() && parser.at() == gp + grp_width(gts, gp)
+                && field_is(Field { field_type, field_size, name: field_name, index_type, auto, comment }, gts, gp));
+            proof {
+                if gh {
+                    lemma_list_step(gts, old(parser).at(), fields@, Field { field_type, field_size, name: field_name, index_type, auto, comment }, gp);
+                }
+            }
 
             fields.push(Field {
                 field_type,
@@ -1188,8 +1420,9 @@ pub fn parse_autosql(data: &str) -> (r: Result<Vec<Declaration>, ParseError>)
         proof {
             
             assert forall|n: int| #[trigger] gen_stream(lex(data), n) implies
-                one_decl(lex(data)) && count(lex(data), 4) == 3 + n
-                && (forall|k: int| 0 <= k <= 3 + n ==> #[trigger] nth_start(lex(data), 4, k) == gen_start(k)) by {
+                one_decl(lex(data)) && count(lex(data), 4) == 3 + n && d_fields(lex(data), 0) == 4
+                && (forall|k: int| 0 <= k <= 3 + n ==> #[trigger] nth_start(lex(data), 4, k) == gen_start(k))
+                && (forall|f: Field, j: int| 0 <= j < 3 + n && #[trigger] field_is(f, lex(data), gen_start(j)) ==> gen_field_is(f, lex(data), j)) by {
                 lemma_gen(lex(data), n);
             }
         }
